@@ -116,3 +116,9 @@ Theorem C04_tie_lfq_dataflow : Gen.p_lfq_codec.p_lfq_codec = expected_lfq_codec.
 Proof. exact pin_lfq_codec. Qed.
 Theorem C04_tie_lq_dataflow : Gen.p_lq_codec.p_lq_codec = expected_lq_codec.
 Proof. exact pin_lq_codec. Qed.
+
+(* the whole-function source footprint of this property is the pinned one (Gen/fp_C04.v is regenerated from /repo on every run) *)
+From VQ Require Import Glue.Pin_fp_C04.
+Theorem C04_tie_source_footprint : fp_C04.fp_C04 = pinned_fp_C04.
+Proof. exact pin_fp_C04. Qed.
+Print Assumptions C04_tie_source_footprint.
